@@ -5,15 +5,16 @@ CONSTANTS
   Loggers = {1, 2}
   Handlers = {1, 3}
   Classes = {"G", "V", "B", "Z"}
-  MaxOps = 14
+  MaxOps = 16
   MaxNodes = 0
   Bug = "none"
   FixFinalize = FALSE
+  UseEmitN = TRUE
   Helpers = {"lock", "k"}
   EncOpts = {"size"}
   DiagOpts = {"va", "vi"}
   MiscKinds = {"C", "F", "L"}
   UseCm = TRUE
-  Known <- KnownBoth
+  Known <- KnownAll
 INVARIANTS Refines ContractType ForcedExact CachedPointersExact LogCommentsExact
 VIEW View
